@@ -3,7 +3,7 @@ package main
 func init() {
 	table["C14"] = propSpec{
 		Level: "exploration",
-		Rule:  "distinct_nontrivial = collector: distinct (writers, observers, resets, answers showing a strict part of the traffic, where a late user was first seen) classes among runs in which a snapshot demonstrably ran between Collect calls; api: distinct (endpoint, query spelling, state, user/total relation) classes of judged GET answers",
+		Rule:  "distinct_nontrivial = collector: distinct (writers, observers, resets, answers showing a strict part of the traffic, where a late user was first seen) classes among runs in which a snapshot demonstrably ran between Collect calls; api: distinct (endpoint, query spelling, state, user/total relation) classes of judged GET answers; live: distinct (userless protocol, batch mode, session kinds, non-empty mid-run cleared snapshot seen) classes of running-service cases whose API figures were compared with the sockets' own byte and datagram counts",
 		Assumptions: append([]string{
 			"a snapshot does not list the anonymous user: its share is read as total minus the listed users (must be non-negative, never above the anonymous traffic recorded, zero when there is none)",
 			"conservation and monotonicity are per counter; the statement does not demand that the counters of one session appear together",
@@ -14,6 +14,7 @@ func init() {
 		Parts: []partSpec{
 			{Name: "collector", Flavour: "race", TimeoutQ: m10, TimeoutT: m60, Weight: 8},
 			{Name: "api", Flavour: "race", TimeoutQ: m10, TimeoutT: m60, Weight: 8},
+			{Name: "live", Flavour: "ft", TimeoutQ: m10, TimeoutT: m60, Weight: 2},
 		},
 	}
 }
